@@ -77,6 +77,13 @@ func (w *writer) WriteStringLocked(s string) (n int, err error) {
 	return w.w.Write([]byte(s))
 }
 
+// setOutput points the writer at a new terminal (after a Resume)
+func (w *writer) setOutput(out io.Writer) {
+	w.mut.Lock()
+	w.w = out
+	w.mut.Unlock()
+}
+
 func (w *writer) Flush() (n int, err error) {
 	if w.buf.Len() == 0 {
 		// If we didn't write any visual changes, make sure we make any
